@@ -76,3 +76,21 @@ Proof.
   cbv zeta. split; [|split; vm_compute; reflexivity].
   repeat constructor; discriminate.
 Qed.
+
+(* ---- the character switches of UriEscape.c and uriHexdigToInt, translated from the C source on every
+   check (Generated/SwitchTables.v), against the case split of the model.  Proofs in Proofs/SwitchEscape.v. *)
+From UP Require Import Generated.SwitchTables Proofs.SwitchBase Proofs.SwitchEscape.
+
+Theorem C16_switch_classes :
+  (* uriEscapeEx: the group copied unchanged is exactly the unreserved set; the switch is no finer than escape_loop *)
+  ((forall c, In c (group_with t_escape 97%N) <-> is_unreserved c = true)
+   /\ (forall c d, escape_class c = escape_class d -> group_of t_escape c = group_of t_escape d))
+  (* uriUnescapeInPlaceEx: NUL, '%', '+' on read[0]; exactly the hex digits on read[1] and read[2] *)
+  /\ ((forall c d, unescape_class c = unescape_class d -> group_of t_unescape0 c = group_of t_unescape0 d)
+      /\ (length t_unescape1 = 1%nat /\ forall c, In c (concat t_unescape1) <-> is_hexdig c = true)
+      /\ (length t_unescape2 = 1%nat /\ forall c, In c (concat t_unescape2) <-> is_hexdig c = true))
+  (* uriHexdigToInt: labels exactly the hex digits, no finer than hexdig_to_int *)
+  /\ ((forall c, In c (concat t_hexval) <-> is_hexdig c = true)
+      /\ (forall c d, hexval_class c = hexval_class d -> group_of t_hexval c = group_of t_hexval d)).
+Proof. exact (conj escape_switch (conj unescape_switches hexval_switch)). Qed.
+Print Assumptions C16_switch_classes.
